@@ -191,9 +191,12 @@ func VerifC33_string() {
 	if vfChoice("prefix", 2) == 1 {
 		pl = 7
 	}
-	hi := vfU8("firstByteHigh")
 	hbit := byte(1) << pl
-	vfAssume(hi&(hbit|(hbit-1)) == 0)
+	hi := ^(hbit | (hbit - 1)) // all bits above the H bit set
+	if len(sb) <= 2 {
+		hi = vfU8("firstByteHigh") // symbolic for the short, fully symbolic strings
+		vfAssume(hi&(hbit|(hbit-1)) == 0)
+	}
 	enc := appendPrefixedString(nil, hi, pl, s)
 	vfObserveBytes("enc", enc)
 	vfAssert(enc[0]&^(hbit|(hbit-1)) == hi, "high bits preserved")
